@@ -14,12 +14,17 @@
 (***************************************************************************)
 EXTENDS Integers, Sequences, FiniteSets
 
-RECURSIVE SeqLess(_, _)
+\* plain lexicographic order.  The first differing position is found by bisection (keys of several KB are
+\* compared; recursion depth is logarithmic)
+RECURSIVE FirstDiff(_, _, _, _)   \* least i in lo..hi with a[i] # b[i], given that one exists
+FirstDiff(a, b, lo, hi) ==
+  IF lo = hi THEN lo
+  ELSE LET mid == (lo + hi) \div 2 IN
+       IF SubSeq(a, lo, mid) = SubSeq(b, lo, mid) THEN FirstDiff(a, b, mid + 1, hi) ELSE FirstDiff(a, b, lo, mid)
 SeqLess(a, b) ==
-  IF a = <<>> THEN b # <<>>
-  ELSE IF b = <<>> THEN FALSE
-  ELSE IF a[1] # b[1] THEN a[1] < b[1]
-  ELSE SeqLess(Tail(a), Tail(b))
+  LET n == IF Len(a) < Len(b) THEN Len(a) ELSE Len(b) IN
+  IF SubSeq(a, 1, n) = SubSeq(b, 1, n) THEN Len(a) < Len(b)
+  ELSE LET i == FirstDiff(a, b, 1, n) IN a[i] < b[i]
 
 SeqLeq(a, b) == ~SeqLess(b, a)
 
